@@ -38,3 +38,37 @@ example : Abs.run G (autoOf T cert) 10 (Abs.init [2, 2, 3]) = .acc tree tree.pos
 example : Abs.run G (autoOf T cert) 10 (Abs.init [2, 2]) = .fail := by rfl
 
 end Lox.LR.Example
+
+/-! A precedence-resolved instance: `@start E = E '+' E @left(1) | NUM` (terminals EOF=0 ERROR=1
+PLUS=2 NUM=3). The generator deleted the shift on `+` in state 4, so `check` fails (the grammar is
+ambiguous) while the soundness half `checkSafe` and the termination check pass. Produced with the
+real generator. -/
+namespace Lox.LR.ExamplePrec
+
+def G : Grammar := ⟨#[⟨0, [.n 1]⟩, ⟨1, [.n 1, .t 2, .n 1]⟩, ⟨1, [.t 3]⟩]⟩
+
+def T : Tables :=
+  { rules := #[0, 1, 1], termCounts := #[1, 3, 1],
+    actions := #[5, 8, 13, 5, 18, 2, 3, 2, 4, 0, 2147483647, 2, 3, 4, 0, -2, 2, -2, 4, 0, -1, 2, -1],
+    gotos := #[5, 8, 8, 9, 8, 2, 1, 1, 0, 2, 1, 4] }
+
+def cert : Array (List Item) :=
+  #[[⟨0,0,0⟩, ⟨1,0,0⟩, ⟨1,0,2⟩, ⟨2,0,0⟩, ⟨2,0,2⟩], [⟨0,1,0⟩, ⟨1,1,0⟩, ⟨1,1,2⟩], [⟨2,1,0⟩, ⟨2,1,2⟩],
+    [⟨1,0,0⟩, ⟨1,0,2⟩, ⟨1,2,0⟩, ⟨1,2,2⟩, ⟨2,0,0⟩, ⟨2,0,2⟩], [⟨1,1,0⟩, ⟨1,1,2⟩, ⟨1,3,0⟩, ⟨1,3,2⟩]]
+
+theorem checkB_fails : checkB G 4 2 T cert = false := by decide
+
+theorem checkSafe_ok : checkSafe G 4 2 T cert = .ok () := checkSafe_ok_iff.mpr (by decide)
+
+theorem termB_ok : termB G T cert = true := by decide
+
+/-- `n + n + n` is grouped to the left, as `@left` asks. -/
+example : Abs.run G (autoOf T cert) 20 (Abs.init [3, 2, 3, 2, 3]) =
+    .acc (.node 1 [.node 1 [.node 2 [.leaf 3], .leaf 2, .node 2 [.leaf 3]], .leaf 2,
+      .node 2 [.leaf 3]])
+      [(2, [.leaf 3]), (2, [.leaf 3]),
+       (1, [.node 2 [.leaf 3], .leaf 2, .node 2 [.leaf 3]]), (2, [.leaf 3]),
+       (1, [.node 1 [.node 2 [.leaf 3], .leaf 2, .node 2 [.leaf 3]], .leaf 2,
+            .node 2 [.leaf 3]])] := by rfl
+
+end Lox.LR.ExamplePrec
